@@ -224,7 +224,23 @@ func decl1(c *Ctx) {
 					case *ssa.Call:
 						inv = x
 					}
-					if inv == nil || !ir.IsInvokeOf(inv, "value") || inv.Call.Value != ta.X {
+					okVal := inv != nil && ir.IsInvokeOf(inv, "value") && inv.Call.Value == ta.X
+					if !okVal {
+						// the case variable's own Value field, for a declaration type whose value() takes no
+						// destination and hands that field back unchanged (checked by DECL-3)
+						if sv, f, isF := structFieldSource(v); isF && sv == src && f == "Value" {
+							if vm := c.fnOpt("", tname+".value"); vm != nil && len(vm.Params) == 1 {
+								okVal = true
+								for _, r := range ir.ReturnPoints(vm) {
+									rs, rf, isRF := structFieldSource(r.Results[0])
+									if !isRF || rs != ssa.Value(vm.Params[0]) || rf != "Value" {
+										okVal = false
+									}
+								}
+							}
+						}
+					}
+					if !okVal {
 						problems = append(problems, "field Value is not the result of value() on the same parameter")
 					}
 				}
